@@ -7,13 +7,18 @@
    order and then merges the undocumented ones:
        OrderedMerge = TRUE   in signature order                          (the code after the fix)
        OrderedMerge = FALSE  in the iteration order of a *set*, which the seed chooses   (the pinned code)
+   A second place where an iteration order can decide the result: a description is scanned for the FIRST of several
+   default-announcing phrases ("defaults to", "Default:", "Default value is"); `phr` lists the phrases present in the
+   description in textual order.  The winner is the phrase of highest priority (lowest number):
+       OrderedScan = TRUE    the candidates are tried in their fixed priority order          (the code as it is)
+       OrderedScan = FALSE   the candidates are tried in the iteration order of a *set*      (a frozenset of candidates)
    `leak` models state leaking from earlier calls (a mutable default / module global): it may change between
    calls but a deterministic API never reads it (ReadsLeak = FALSE).
 
    Functional: equal (api, input) => equal output, across processes, seeds and histories.                      *)
 EXTENDS Naturals, Sequences, FiniteSets, TLC, Json
 
-CONSTANTS MaxSig, MaxCalls, OrderedMerge, ReadsLeak
+CONSTANTS MaxSig, MaxCalls, OrderedMerge, ReadsLeak, OrderedScan
 
 Seeds == {1, 2}
 Procs == {"A", "B"}
@@ -23,7 +28,9 @@ RECURSIVE Inj(_, _)
 Inj(S, k) == IF k = 0 THEN {<<>>} ELSE {Append(s, x) : s \in Inj(S, k - 1), x \in S} 
 NoRep(s) == \A a, b \in 1..Len(s) : a # b => s[a] # s[b]
 DocSeqs(n) == {s \in UNION {Inj(1..n, k) : k \in 0..n} : NoRep(s)}
-InputsOK == {x \in [n : 1..MaxSig, doc : UNION {DocSeqs(m) : m \in 1..MaxSig}] : \A k \in 1..Len(x.doc) : x.doc[k] <= x.n}
+MergeInputs == {x \in [n : 1..MaxSig, doc : UNION {DocSeqs(m) : m \in 1..MaxSig}, phr : {<<>>}] : \A k \in 1..Len(x.doc) : x.doc[k] <= x.n}
+ScanInputs == [n : {1}, doc : {<<1>>}, phr : {s \in DocSeqs(3) : Len(s) >= 1}]
+InputsOK == MergeInputs \cup ScanInputs
 
 Range(s) == {s[k] : k \in 1..Len(s)}
 RECURSIVE Asc(_)
@@ -36,7 +43,9 @@ SetOrder(seed, S) == IF seed = 1 THEN Asc(S) ELSE Desc(S)
 Out(x, seed, leak) ==
   LET rest == (1..x.n) \ Range(x.doc)
       merged == IF OrderedMerge THEN Asc(rest) ELSE SetOrder(seed, rest)
-  IN x.doc \o merged \o (IF ReadsLeak /\ leak > 0 THEN <<0>> ELSE <<>>)
+      cands == Range(x.phr)
+      winner == IF cands = {} THEN <<>> ELSE <<100 + (IF OrderedScan THEN Head(Asc(cands)) ELSE Head(SetOrder(seed, cands)))>>
+  IN x.doc \o merged \o winner \o (IF ReadsLeak /\ leak > 0 THEN <<0>> ELSE <<>>)
 
 VARIABLES seed, leak, calls
 vars == <<seed, leak, calls>>
@@ -57,10 +66,10 @@ Functional == \A p, q \in Procs : \A a \in 1..Len(calls[p]), b \in 1..Len(calls[
                  calls[p][a].input = calls[q][b].input => calls[p][a].out = calls[q][b].out
 \* every signature parameter appears exactly once (C14's SigCovered, checked here because the merge produces it)
 Covered == \A p \in Procs : \A a \in 1..Len(calls[p]) :
-              LET c == calls[p][a] IN Len(c.out) = c.input.n /\ Range(c.out) = 1..c.input.n
+              LET c == calls[p][a] names == SelectSeq(c.out, LAMBDA v : v < 100) IN Len(names) = c.input.n /\ Range(names) = 1..c.input.n
 
 Stop == calls["A"] = <<>> /\ calls["B"] = <<>>
 \* the inputs themselves are dumped once (from the initial states' point of view they are constants)
 DumpInputs == (calls["A"] = <<>> /\ calls["B"] = <<>> /\ seed["A"] = 1 /\ seed["B"] = 1) =>
-                 \A x \in InputsOK : PrintT(ToJson([n |-> x.n, doc |-> x.doc, out |-> Out(x, 1, 0)]))
+                 \A x \in InputsOK : PrintT(ToJson([n |-> x.n, doc |-> x.doc, phr |-> x.phr, out |-> Out(x, 1, 0)]))
 =====================================================================================
